@@ -44,6 +44,108 @@ theorem C12_lock_order_acyclic : acyclic c12.report.orderEdges = true := by deci
 -- also: Restful.Lockset.lockset_sound
 -- also: Restful.Lockset.no_deadlock
 
+/-! ### non-vacuity (audit)
+
+The five obligations above are closed facts about the regenerated sources; they would also be true
+of an empty fact list.  They are not: the analysis reaches tracked accesses, writes and lock
+acquisitions from the entry points (stated as lower bounds, so that regenerating the facts from a
+changed /repo does not break them for a wrong reason), and it REJECTS seeded defects of the same
+facts — every write acquisition of `webServicesLock` removed, or weakened to a read acquisition;
+a lock acquired in the wrong order; a call made while a lock is held without `defer`. -/
+
+/-- tracked-field accesses / writes / lock acquisitions in code reachable from the entry points -/
+def c12Reachable (a : Analysis) (p : Op → Bool) : List Item :=
+  (a.ann.filter (fun x => (ctxGet a.must x.1.fn).isSome && p x.1.op)).map (·.1)
+
+example :
+    (c12Reachable c12 (fun o => match o with | .read _ => true | .write _ => true | _ => false)).length ≥ 20 ∧
+    (c12Reachable c12 (fun o => match o with | .write _ => true | _ => false)).length ≥ 5 ∧
+    (c12Reachable c12 (fun o => match o with | .acq _ .W => true | _ => false)).length ≥ 3 ∧
+    (c12Reachable c12 (fun o => match o with | .acq _ .R => true | _ => false)).length ≥ 3 := by
+  decide +kernel
+
+/-- seeded defect 1: without the write acquisitions of `webServicesLock` the report is not clean -/
+def itemsNoWLock : List Item :=
+  items.filter (fun it => match it.op with | .acq 0 .W => false | .deferRel 0 .W => false | .rel 0 .W => false | _ => true)
+/-- seeded defect 2: the write acquisitions weakened to read acquisitions -/
+def itemsWeakLock : List Item :=
+  items.map (fun it => match it.op with
+    | .acq 0 .W => { it with op := .acq 0 .R }
+    | .deferRel 0 .W => { it with op := .deferRel 0 .R }
+    | .rel 0 .W => { it with op := .rel 0 .R }
+    | _ => it)
+
+example : (analysis fnNames itemsNoWLock (servingEntries ++ mutatorEntries)).report.unguarded ≠ [] := by
+  decide +kernel
+example : (analysis fnNames itemsWeakLock (servingEntries ++ mutatorEntries)).report.unguarded ≠ [] := by
+  decide +kernel
+
+/-- the other checks discriminate too (toy fact lists): a cyclic lock order; re-acquiring a held
+    lock and a wrong nesting; a write under a read lock; a write guarded by its only caller (clean:
+    the must-hold data-flow — in the current sources every reachable access is guarded lexically, so
+    this is the only place that exercises it) and the same function as an entry point (unguarded); a
+    call under a lock that is not released by `defer`; a missing entry point -/
+example :
+    acyclic [(0, 1), (1, 0)] = false ∧ acyclic [(0, 0)] = false ∧
+    (analysis ["f"] [⟨0, .acq 1 .R, 0, false, false⟩, ⟨0, .acq 0 .R, 0, false, false⟩, ⟨0, .acq 0 .R, 0, false, false⟩] ["f"]).report =
+      { reentrant := [⟨0, .acq 0 .R, 0, false, false⟩], orderEdges := [(0, 0), (1, 0)] } ∧
+    (analysis ["f"] [⟨0, .acq 0 .R, 0, false, false⟩, ⟨0, .write 0, 0, false, false⟩] ["f"]).report.unguarded =
+      [⟨0, .write 0, 0, false, false⟩] ∧
+    (analysis ["f", "g"] [⟨0, .acq 0 .W, 0, false, false⟩, ⟨0, .call [1], 0, false, false⟩, ⟨1, .write 0, 0, false, false⟩] ["f"]).report =
+      {} ∧
+    (analysis ["f", "g"] [⟨0, .acq 0 .W, 0, false, false⟩, ⟨0, .call [1], 0, false, false⟩, ⟨1, .write 0, 0, false, false⟩] ["f", "g"]).report.unguarded =
+      [⟨1, .write 0, 0, false, false⟩] ∧
+    panicSafe 1 [⟨0, .acq 0 .W, 0, false, false⟩, ⟨0, .call [0], 0, false, false⟩, ⟨0, .rel 0 .W, 0, false, false⟩] = false ∧
+    panicSafe 1 [⟨0, .acq 0 .W, 0, false, false⟩, ⟨0, .deferRel 0 .W, 0, false, false⟩, ⟨0, .call [0], 0, false, false⟩] = true ∧
+    entriesPresent fnNames ["Container.NoSuchFunction"] = false := by
+  decide
+
+/-! `Lockset.lockset_sound` / `Lockset.no_deadlock` carry `decide`d instances of their program
+hypotheses in Lemmas/Lockset.lean (a reader nesting two locks, a writer).  Added here: ALL their
+hypotheses at once at a concrete reachable state in which a thread is blocked, and the fact that
+their conclusions fail for an undisciplined / unordered system. -/
+namespace C12Example
+open Lockset
+
+/-- the reader has taken lock 0 and read; the writer wants lock 0 and is blocked -/
+def mid : State := (runSched (init [exReader, exWriter]) [0, 0]).get (by decide)
+
+theorem mid_reachable : Reachable (init [exReader, exWriter]) mid :=
+  runSched_reachable (Option.some_get _).symm
+
+example : mid.threads[1]? = some exWriter ∧ (step mid 1).isNone = true ∧ (step mid 0).isSome = true := by decide
+
+/-- `no_deadlock` with every hypothesis discharged: someone can move (the reader) -/
+example : ∃ t σ', step mid t = some σ' :=
+  no_deadlock exGuard id _ (by decide) (by decide) mid mid_reachable
+    ⟨1, .acq 0 .W, [.read 0, .write 0, .rel 0 .W], by decide⟩
+
+/-- `lockset_sound` at that state -/
+example := lockset_sound exGuard _ (by decide) mid mid_reachable .read .write
+
+/-- two readers do reach a state in which both are about to access variable 0 (so the premise
+    pattern of `lockset_sound` is inhabited for read/read) … -/
+def both : State := (runSched (init [exReader, exReader]) [0, 1]).get (by decide)
+example : nextIs both 0 (access 0 .read) ∧ nextIs both 1 (access 0 .read) :=
+  ⟨⟨[.acq 1 .R, .read 3, .rel 1 .R, .rel 0 .R], by decide⟩, ⟨[.acq 1 .R, .read 3, .rel 1 .R, .rel 0 .R], by decide⟩⟩
+
+/-- … and the conclusion of `lockset_sound` is false for an undisciplined system: two threads that
+    write variable 0 without a lock are both enabled in the initial state -/
+example : Disciplined exGuard [] [.write 0] = false ∧
+    ∃ t t' x, t ≠ t' ∧ nextIs (init [[.write 0], [.write 0]]) t (access x .write) ∧
+      nextIs (init [[.write 0], [.write 0]]) t' (access x .write) ∧ (Kind.write = Kind.write ∨ Kind.write = Kind.write) :=
+  ⟨by decide, 0, 1, 0, by decide, ⟨_, rfl⟩, ⟨_, rfl⟩, .inl rfl⟩
+
+/-- the conclusion of `no_deadlock` is false for a system that takes two locks in opposite orders
+    (it is not `Ordered`): after one step each, nobody can move although both are unfinished -/
+def abba : List Prog := [[.acq 0 .W, .acq 1 .W, .rel 1 .W, .rel 0 .W], [.acq 1 .W, .acq 0 .W, .rel 0 .W, .rel 1 .W]]
+def stuck : State := (runSched (init abba) [0, 1]).get (by decide)
+example : (∀ p ∈ abba, Disciplined exGuard [] p = true) ∧ ¬ (∀ p ∈ abba, Ordered id [] p = true) ∧
+    (step stuck 0).isNone = true ∧ (step stuck 1).isNone = true ∧ stuck.threads.all (fun p => !p.isEmpty) = true := by
+  decide
+
+end C12Example
+
 /-! The frame condition (Lemmas/StateShape.lean): the code has exactly the state this property's model
     accounts for — no further package-level variable, struct type or field; constants as modelled. -/
 -- also: Restful.StateShape.globals_shape
